@@ -154,6 +154,20 @@ func c06gen(r *gen.R, testing bool) c06case {
 		c.msg = "head\n" + strings.Repeat("0123456789abcdef", gen.Pick(r, []int{4095, 4096, 4097, 8192})) + gen.Pick(r, []string{"", "x"}) + "\ntail"
 		c.layoutOK = true
 	}
+	if r.P(3) {
+		// a long dump after the first line (a goroutine dump, an SQL statement): 1-6 KiB of lines with EMPTY lines among them
+		var sb strings.Builder
+		sb.WriteString("head of a dump")
+		for n := r.Range(20, 120); n > 0; n-- {
+			sb.WriteByte('\n')
+			if r.P(20) {
+				continue // an empty line
+			}
+			sb.WriteString(strings.Repeat("frame ", r.Range(1, 12)))
+		}
+		c.msg = sb.String() + gen.Pick(r, []string{"", "\n", "end"})
+		c.layoutOK = true
+	}
 	if c.lvl == slog.AlwaysLevel && strings.Trim(c.msg, "\n\r \t") == "" {
 		c.msg = "x" + c.msg
 	}
@@ -294,6 +308,12 @@ func neutralV(v gen.V) gen.V {
 
 func c06main(c *Ctx) {
 	registerCustomLevels()
+	if c.X("nocolormode", "") == "1" {
+		// the application's process-wide "--no-color" switch (hedzr/is) is on: whatever a colored record then carries in
+		// the way of escape sequences, it switches off again what it switches on
+		is.SetNoColorMode(true)
+		c.R.Add("processes_with_the_no_color_switch_on", 1)
+	}
 	log := mon.NewLog()
 	w := mon.New(log, "W", mon.ShapePlain)
 	c.Each(func(idx int, r *gen.R) {
